@@ -14,9 +14,9 @@ BUDGET = {
     "C12": ((8, 8), (64, 32)),
     "C13": ((8, 8), (64, 32)),
     "C15": ((8, 8), (64, 32)),
-    "C05": ((4, 3), (32, 12)),
-    "C19": ((4, 3), (32, 12)),
-    "C04": ((4, 3), (32, 12)),
+    "C05": ((2, 2), (32, 12)),
+    "C19": ((2, 2), (32, 12)),
+    "C04": ((2, 2), (32, 12)),
 }
 
 BAD = re.compile(r"error: Undefined Behavior|Data race detected|error: memory leaked|error: the evaluated program|E2-VIOLATION|error: unsupported operation|panicked at")
